@@ -54,9 +54,9 @@ def calprobe(detector, _p=None, inp=0, **params):
     shape = (detector.geometry.row, detector.geometry.col)
     if p.get("noise"):
         B = B + float(np.random.normal())
-    if p.get("delay") and (int(abs(A * 1000)) % 3 == 0):
+    if p.get("delay") and int(abs(A * 1000)) % 3:
         import time
-        time.sleep(p["delay"])
+        time.sleep(p["delay"] * (int(abs(A * 1000)) % 3))      # data-dependent: candidates finish out of order
     if p.get("fault") is not None and len(CALLS) > p["fault"]:
         raise pm.EXC[p.get("exc", "ValueError")](p.get("msg", "calibration fault"))
     detector.photon.array = np.zeros(shape)
@@ -79,9 +79,10 @@ def write_frames(kcfg, workdir):
     ones = True
     for k, p in enumerate(kcfg["pairs"]):
         tf = os.path.join(workdir, f"target_{k}.npy")
-        np.save(tf, np.array(p["target"], dtype=float))
+        # integer targets stored as integers (what a measured image file holds) when the case says so
+        np.save(tf, np.array(p["target"], dtype=np.uint16 if kcfg.get("int_targets") else float))
         tfiles.append(tf)
-        w = np.array(p["w"], dtype=float)
+        w = np.array(p["w"], dtype=float) / kcfg.get("wdiv", 1)
         if not (w == 1).all():
             ones = False
         wf = os.path.join(workdir, f"weight_{k}.npy")
@@ -102,6 +103,8 @@ def make_parameters(kcfg, variant=0, collide=False):
             values, bounds = ["_"] * v["arity"], (lo[0], hi[0])           # one boundary pair shared by all components
         else:
             values, bounds = ["_"] * v["arity"], [[a, b] for a, b in zip(lo, hi)]   # a pair per component
+        if isinstance(values, list) and (variant + j) % 3 == 1:
+            values = tuple(values)        # a vector declared with a tuple (any sequence of "_" is a valid declaration)
         params.append(ParameterValues(key=var_key(j, collide), values=values, logarithmic=bool(v["log"]), boundaries=bounds))
     return params
 
@@ -138,12 +141,16 @@ def make_calibration(kcfg, workdir, variant=0, algo=None, extra=None, **kw):
                                       values=[100.0 + pp["inp"] for pp in kcfg["pairs"]])]
         else:
             inputs = [ParameterValues(key=f"{KEY}inp", values=[pp["inp"] for pp in kcfg["pairs"]])]
+    wkw = {"weights_from_file": wfiles}
+    if kcfg.get("scalar_w"):
+        # one declared weight per target (kcfg.pairs[k].w is constant: w / wdiv), not a weight file
+        wkw = {"weights": [float(pp["w"][0][0]) / kcfg.get("wdiv", 1) for pp in kcfg["pairs"]]}
     cal = Calibration(
         target_data_path=tfiles, fitness_function=FitnessFunction(func=FF[kcfg["ff"]]),
         algorithm=algo or Algorithm(type="sade", generations=2, population_size=8),
         parameters=make_parameters(kcfg, variant, collide), result_type="pixel",
         result_fit_range=tuple(kcfg["rr"]), target_fit_range=tuple(kcfg["tr"]),
-        result_input_arguments=inputs, weights_from_file=wfiles, **kw)
+        result_input_arguments=inputs, **wkw, **kw)
     return cal, det, pipe
 
 
@@ -322,7 +329,8 @@ def calib_job(job) -> dict:
                                 fit = float(best["fitness"].isel(island=isl, evolution=evo, individual=ind).values)
                                 events.append(report_event(kcfg, "best", isl, evo, x, prm, fit, wd))
                 # the returned simulated data of the last champions
-                meta["simulated"] = check_simulated(dt, kcfg, champ)
+                with dask.config.set(**dkw):       # (lazy data: computed under the scheduler of this job)
+                    meta["simulated"] = check_simulated(dt, kcfg, champ)
                 meta["champions"] = [[float(v) for v in champ["fitness"].isel(island=i).values] for i in range(champ.sizes["island"])]
                 meta["champion_x"] = [[float(v) for v in champ["decision"].isel(island=i, evolution=-1).values]
                                       for i in range(champ.sizes["island"])]
@@ -378,7 +386,7 @@ def resimulate(kcfg, params):
         sim = np.asarray(dt["pixel"].isel(time=0).values, dtype=float)
         frames.append(sim)
         total += figure_of_merit(kcfg["ff"], sim[ry0:ry1, rx0:rx1], np.array(p["target"], float)[y0:y1, x0:x1],
-                                 np.array(p["w"], float)[y0:y1, x0:x1])
+                                 np.array(p["w"], float)[y0:y1, x0:x1] / kcfg.get("wdiv", 1))
     return total, frames
 
 
